@@ -1,5 +1,5 @@
 (* Property C14 -- statements only; every proof is `exact <lemma from Proofs/>`. *)
-From Erbium Require Import Lib.Base Model.DnsName Model.DnsCodec Proofs.DnsName Proofs.DnsRecord Proofs.DnsPacket Proofs.DnsWf Proofs.DnsRoundtrip.
+From Erbium Require Import Lib.Base Model.DnsName Model.DnsCodec Proofs.DnsName Proofs.DnsRecord Proofs.DnsPacket Proofs.DnsWf Proofs.DnsRoundtrip Model.DnsStrict Proofs.DnsStrictProofs.
 
 (* Names, with the dictionary (suffix tree) invariant [tree_ok]: writing a
    well-formed name at the end of a buffer whose dictionary is valid never
@@ -43,19 +43,17 @@ Print Assumptions C14_names_roundtrip.
    only if every compression pointer on its path targets an offset strictly
    below the pointer's own offset and below 0x4000 (Model/DnsName.v
    strict_name).  It accepts every name the encoder writes.
-   Full statement wanted (packet level, not yet proved):
-     forall m, wf_pkt m -> encode m = Ok b ->
-       Forall (fun '(at, target) => target < at /\ target < 0x4000) (pointers b). *)
-Theorem C14_pointers_backwards_and_small_partial : forall buf kids n,
+   The packet-level statement is C14_pointers_backwards_and_small below. *)
+Theorem C14_name_pointers_backwards_and_small : forall buf kids n,
   0 < lenN buf -> Forall (tree_ok buf []) kids -> wf_name n = true ->
   exists b kids', push_name (lenN buf) kids n = Ok (b, kids') /\
     strict_name NAME_FUEL (buf ++ b) (dropN (lenN buf) (buf ++ b)) (lenN buf) 0 = Some (n, lenN buf + lenN b).
 Proof. exact name_pointers_strict. Qed.
-Check C14_pointers_backwards_and_small_partial : forall buf kids n,
+Check C14_name_pointers_backwards_and_small : forall buf kids n,
   0 < lenN buf -> Forall (tree_ok buf []) kids -> wf_name n = true ->
   exists b kids', push_name (lenN buf) kids n = Ok (b, kids') /\
     strict_name NAME_FUEL (buf ++ b) (dropN (lenN buf) (buf ++ b)) (lenN buf) 0 = Some (n, lenN buf + lenN b).
-Print Assumptions C14_pointers_backwards_and_small_partial.
+Print Assumptions C14_name_pointers_backwards_and_small.
 
 (* The decoder reads exactly what the "meaning of the octets" relation says,
    as long as the hop count stays within LIMIT and the name within 255 octets. *)
@@ -140,3 +138,18 @@ Example C14_roundtrip_example :
               edns := Some [(10, [1;2;3;4;5;6;7;8])] |} in
   wf_pkt m = true /\ match encode_sized_t m 65536 with Ok (_, t) => t = false | _ => False end.
 Proof. vm_compute. auto. Qed.
+
+(* Pointers, packet level: every encoding of a well-formed message -- complete or
+   truncated, of any size -- is accepted by the strict decoder of the
+   specification side.  That decoder expands the question name, every owner name
+   and every name inside record data, and gives up on any compression pointer
+   whose target is not strictly below the pointer's own offset and below 0x4000
+   (Model/DnsName.v strict_name, the only place where it follows a pointer); so
+   every pointer in the message points backwards to an offset below 16384.  Which
+   message it returns is stated in C04_sized_wellformed / C14_roundtrip. *)
+Theorem C14_pointers_backwards_and_small : forall m size e t,
+  wf_pkt m = true -> encode_sized_t m size = Ok (e, t) -> exists m', strict_decode e = Some m'.
+Proof. exact encoding_strictly_decodable. Qed.
+Check C14_pointers_backwards_and_small : forall m size e t,
+  wf_pkt m = true -> encode_sized_t m size = Ok (e, t) -> exists m', strict_decode e = Some m'.
+Print Assumptions C14_pointers_backwards_and_small.
